@@ -27,8 +27,8 @@ yields what the documented grammar says. -/
 def C06_infer_eq_classify : Prop := ∀ (f : Flag) (s : Bytes), Infer.infer f s = .ok (classify f s)
 
 /-- Proved part: the statement holds for every flag and every string outside the four finding
-classes (`findingClass f s = none`, a decidable predicate: numerals whose magnitude overflows
-int64 resp. double).  The regenerated inferrer tables enter through the eight `decide`d
+classes (`findingClass f s = none`, a decidable predicate: prefixed / leading-zero numerals beyond
+int64 and float or integer numerals beyond the double range).  The regenerated inferrer tables enter through the eight `decide`d
 table-entry facts, so a re-ordered table breaks this proof. -/
 theorem infer_eq_classify_partial (f : Flag) (s : Bytes) (h : findingClass f s = none) :
     Infer.infer f s = .ok (classify f s) := by
@@ -48,14 +48,14 @@ theorem infer_eq_classify_partial (f : Flag) (s : Bytes) (h : findingClass f s =
   | stringOnly =>
     simp [Infer.infer, Infer.inferStringOnly, Infer.inferString, Infer.setFromString, classify, strOrVoid]
 
-/-- The pinned code violates the full statement: an integer numeral that does not fit in 64 bits
-is inferred as a *string*, not a float (witness `99999999999999999999`; finding
-decimal-int-overflow).  -/
-theorem C06_infer_eq_classify_counterexample_decimal :
-    Infer.infer .normal (str "99999999999999999999") ≠ .ok (classify .normal (str "99999999999999999999")) := by
+/-- The code violates the full statement: a prefixed numeral that does not fit in 64 bits is
+inferred as a *string*, not a float (witness `0x10000000000000000`; finding
+prefixed-int-overflow).  (Decimal numerals beyond 64 bits were the same defect; repaired by a
+`fix:` commit in /repo, after which they are floats: see `decimal_overflow_is_float`.) -/
+theorem decimal_overflow_is_float :
+    Infer.infer .normal (str "99999999999999999999") = .ok (.float 0x4415af1d78b58c40) := by
   decide
 
-/-- Same for prefixed numerals (witness `0x10000000000000000`; finding prefixed-int-overflow). -/
 theorem C06_infer_eq_classify_counterexample_prefixed :
     Infer.infer .normal (str "0x10000000000000000") ≠ .ok (classify .normal (str "0x10000000000000000")) := by
   decide
@@ -71,7 +71,7 @@ theorem C06_infer_eq_classify_counterexample_lz :
   decide
 
 theorem C06_infer_eq_classify_counterexample : ¬ C06_infer_eq_classify :=
-  fun h => C06_infer_eq_classify_counterexample_decimal (h .normal _)
+  fun h => C06_infer_eq_classify_counterexample_prefixed (h .normal _)
 
 /-- Inference never panics (every Go slice expression in inferHexInt/inferBaseInt is in range
 *because* of the scan class), for every flag and every string — including the finding classes. -/
